@@ -97,6 +97,8 @@ class TreeUniverse:
         t = t.scale(float(r.uniform(0.5, 2.0)))
         if i % 2 == 0:
             t.coeff = float(r.uniform(0.5, 1.5)) * (-1 if r.random() < 0.5 else 1)
+            if r.random() < 0.2:
+                t.coeff = 1.0 + 4e-7        # agrees with the other generators' 1 to np.allclose's default tolerance, but is not equal
         return t
 
     def interp(self, val, gens):
